@@ -157,11 +157,11 @@ theorem mid_next (hp : PreC x) (hpick : PickOut h x.template (x.collisionCount.g
   have hsN : NSC h (ownS (nextW h x)) := by rw [hsim]; exact nextW_ns hs hpol
   have hn := hsN.norm
   refine ⟨⟨⟨hn.spec.paused, hn.spec.sel, hn.spec.del, hn.spec.rep, hn.spec.r0, hn.spec.strat, hn.spec.lim⟩,
-    ?_, ?_, ?_, hn.smallR, hn.smallB, rfl, rfl, hp.spec.del, ?_, hp.colon, ?_⟩, by rw [hsim]; exact hK.next _ hk⟩
+    ?_, ?_, ?_, hn.smallR, rfl, rfl, hp.spec.del, ?_, hp.colon, ?_⟩, by rw [hsim]; exact hK.next _ hk⟩
   · intro c hc
     have hm : own c ∈ (ownS (nextW h x)).pods := List.mem_map_of_mem hc
-    obtain ⟨_, a2, a3, a4, a5, a6, a7, a8⟩ := hn.pods (own c) hm
-    refine ⟨?_, a2, a3, a4, a5, a6, a7, a8⟩
+    obtain ⟨_, a2, a3, a4, a5, a7, a8⟩ := hn.pods (own c) hm
+    refine ⟨?_, a2, a3, a4, a5, a7, a8⟩
     rcases hown c hc with h1 | h1
     · exact Or.inl h1
     · exact Or.inr h1.1
